@@ -332,6 +332,12 @@ pub fn run(tier: &str) -> Result<Report, String> {
         (vec!["k_in", "x"], vec![(0, 1)], vec![None, Some(Expr::bin('^', Expr::bin('&', Expr::Var(0), Expr::Call("k".into(), vec![])), Expr::Call("k_".into(), vec![])))]),
         (vec!["f__0", "x"], vec![(0, 1)], vec![None, Some(Expr::bin('|', Expr::Call("f".into(), vec![0]), Expr::Call("f_".into(), vec![0])))]),
         (vec!["a", "x"], vec![(0, 1)], vec![None, Some(Expr::bin('^', Expr::Call("f".into(), vec![0]), Expr::Call("f_".into(), vec![0])))]),
+        // a variable named like a generated constant AND the symbol applied twice in one update function (both applications must
+        // end up with the same repaired name)
+        (vec!["a", "b", "f_1"], vec![(0, 0), (1, 0), (2, 0)], vec![Some(Expr::bin('&', Expr::bin('&', Expr::Call("f".into(), vec![0]), Expr::not(Expr::Call("f".into(), vec![1]))), Expr::Var(2))), None, None]),
+        (vec!["a", "b", "f_0"], vec![(0, 0), (1, 0), (2, 0)], vec![Some(Expr::bin('|', Expr::bin('^', Expr::Call("f".into(), vec![0]), Expr::Call("f".into(), vec![1])), Expr::Var(2))), None, None]),
+        (vec!["a", "b", "k_10"], vec![(0, 0), (1, 0), (2, 0)], vec![Some(Expr::bin('|', Expr::bin('&', Expr::Call("k".into(), vec![0, 1]), Expr::not(Expr::Call("k".into(), vec![1, 0]))), Expr::Var(2))), None, None]),
+        (vec!["a", "h_", "x"], vec![(0, 2), (1, 2)], vec![None, None, Some(Expr::bin('^', Expr::bin('&', Expr::Var(0), Expr::Call("h".into(), vec![])), Expr::bin('|', Expr::Var(1), Expr::Call("h".into(), vec![]))))]),
     ] {
         let spec = NetSpec {
             vars: vars.iter().map(|s| s.to_string()).collect(),
